@@ -7,7 +7,8 @@ package main
 var vSync = [8]uint8{0x1f, 0xa6, 0xde, 0xba, 0xcc, 0x13, 0x7d, 0x74}
 
 // k = length of the file name (>= 1), m = length of the -nam value (0 = not given)
-func VC19Cas(k, m int) {
+// inplace = 1: the image is converted in place (-cim names the output file)
+func VC19Cas(k, m, inplace int) {
 	vCmdBegin("cas")
 	name := vStr("cim", k)
 	for i := 0; i < k; i++ {
@@ -20,8 +21,12 @@ func VC19Cas(k, m int) {
 	vAssume(vAnd(n >= 1, n <= 65536))
 	vAssume(int(off)+n-1 <= 0xffff)
 	img := vBytesN("img", n)
-	vCmdFile(name, img)
-	vCmdFlag("cim", name)
+	if inplace == 1 {
+		vCmdInPlace("cim", img)
+	} else {
+		vCmdFile(name, img)
+		vCmdFlag("cim", name)
+	}
 	if m > 0 {
 		vCmdFlag("nam", tape)
 	}
